@@ -25,13 +25,40 @@
 (***************************************************************************)
 EXTENDS Naturals, FiniteSets, TLC
 
-CONSTANTS Procs, Keys, Rounds, CanCancel, BadUnlock
+\* (the @type comments are for Apalache, which discharges the inductive invariant of LockMapInd.tla; TLC ignores them)
+CONSTANTS
+  \* @type: Set(Str);
+  Procs,
+  \* @type: Set(Str);
+  Keys,
+  \* @type: Int;
+  Rounds,
+  \* @type: Bool;
+  CanCancel,
+  \* @type: Bool;
+  BadUnlock
 
-VARIABLES mu,        \* "free" or the process holding the map mutex
-          inMap,     \* inMap[k]: the map has an entry for k
-          ref,       \* ref[k]: its refcount (0 when absent)
-          full,      \* full[k]: the channel holds its element (the key lock is held)
-          pc, key, cancelled, holds, round, result
+VARIABLES
+  \* @type: Str;
+  mu,        \* "free" or the process holding the map mutex
+  \* @type: Str -> Bool;
+  inMap,     \* inMap[k]: the map has an entry for k
+  \* @type: Str -> Int;
+  ref,       \* ref[k]: its refcount (0 when absent)
+  \* @type: Str -> Bool;
+  full,      \* full[k]: the channel holds its element (the key lock is held)
+  \* @type: Str -> Str;
+  pc,
+  \* @type: Str -> Str;
+  key,
+  \* @type: Str -> Bool;
+  cancelled,
+  \* @type: Str -> Bool;
+  holds,
+  \* @type: Str -> Int;
+  round,
+  \* @type: Str -> Str;
+  result
 vars == <<mu, inMap, ref, full, pc, key, cancelled, holds, round, result>>
 
 PCs == {"idle", "lk_start", "lk_inMu", "lk_ctx", "lk_select", "ret_start", "ret_inMu",
